@@ -70,7 +70,14 @@ PROPS = {
         'theorems are about the L0 model Hs (two endpoints + packet histories); the model is replayed line by line against two real associations driven by a packet shuffler (TestVerifHandshake)',
         'the blocking behaviour of Client/Server calls, T1 retry budget and connect failure are covered by the e2e handshake scenarios and by C19 theorems, not by the Hs model',
         'verification tags and ports are not part of the model (the implementation does not check inbound verification tags)']},
-    'C14': {'jobs': [RSD, E2E_RS]},
+    'C14': {'jobs': [RSD, E2E_RS], 'assumptions': [
+        'theorems are about the L0 model Rs (two established endpoints + packet histories, stream objects by handle); the model is replayed line by line against two real associations (TestVerifReset)',
+        'oracles (quantified over in the theorems, recorded from the real code in the harness): which pending entries leave the queue in one gatherOutbound call (congestion / flow control, scheduler), which sent chunks are retransmitted (T3, fast retransmit, RACK), whether a SACK is due',
+        'TSN / RSN / SSN / MID are natural numbers in Rs (no wrap-around; serial arithmetic is C16), initial TSNs are not 0, messages are unfragmented, the receive buffer is never full, fewer than 1000 deferred requests; where a run leaves this domain the model prints UNSUPPORTED',
+        'Rs keeps every performed request number; the exact rememberPerformedReset (trim above 2048 entries) is modelled separately (PerfSet) and the driver flags disagreement',
+        'C14_eof_after_data judges an identifier while the applications re-open it only in states where both directions were reset (Sys.quiet, evaluated on the real state by the harness as q=)',
+        'association shutdown / abort and blocking calls are outside the model (e2e reset scenarios cover them by exploration)',
+    ]},
     'C10': {'jobs': [ASND, E2E_T], 'assumptions': [
         'L0 model Model/Sender.lean is hand-written; its window tests / updates / congestion formulas / chunk sizes are translator-generated Gen.* defs; the rest is tied by comparing every op of the direct-drive harness',
         'oracles (quantified over in the theorems, recorded from the real code in the harness): TLR burst budget, pending-queue selection, RACK/PTO loss marks, T3 expiries during a clock tick',
